@@ -1378,8 +1378,12 @@ class Linker:
         self.__pendingImports.update(module.Imports)
 
     def Link(self) -> Program:
-        # add all imported modules
-        for importedModule in self.__pendingImports:
-            self.AddModule(self.__loader.Load(importedModule))
+        # add all imported modules; loading a module may add further
+        # pending imports, so iterate until no unloaded import is left
+        loadedImports = set()
+        while self.__pendingImports - loadedImports:
+            for importedModule in sorted(self.__pendingImports - loadedImports):
+                loadedImports.add(importedModule)
+                self.AddModule(self.__loader.Load(importedModule))
 
         return Program(self.__functions, self.__globals)
